@@ -535,7 +535,7 @@ func TestVerifC04(t *testing.T) {
 		}
 	})
 
-	n := r.N(2500, 400000)
+	n := r.N(2500, 100000)
 	r.Cases("rand", n, func(i int, id string, rng *vk.Rand) {
 		c := c04Gen(rng)
 		if r.WantSample() {
